@@ -474,11 +474,8 @@ let spec_line (u : unit_case) : string =
       ~ver:(sn u.hdr.uh_version) ~f64:u.hdr.uh_fmt64 ~asz:(sn u.hdr.uh_asize) ~ut:(show_utype u.hdr.uh_type)
       ~aoff:(sn u.hdr.uh_abbrev_off) ~hsize:(sn hl) ~nbuf in
   let evs = walk u.codes hl 0 u.forest in
-  let endf = List.fold_left (fun o t -> zadd o (tree_size u.codes t)) hl u.forest in
-  let pads = List.init u.pad (fun i -> Nl (Z.add (z_of_n endf) (Z.of_int i), - i)) in
-  let null_die o d = { d_offset = n_of_z o; d_depth = cz_of_int d; d_tag = BinNums.N0; d_children = false; d_attrs = [] } in
-  let raw_s = join ";" (List.map (function
-    | E (d, _, _, _) -> show_die d | Nl (o, d) -> show_die (null_die o d)) (evs @ pads)) in
+  (* the raw sequence straight from the specification (entries, list terminators, padding) *)
+  let raw_s = join ";" (List.map show_die (raw_seq u.codes hl u.forest (nat_of_int u.pad))) in
   let pre = preorder u.codes hl BinNums.Z0 u.forest in
   let dfs_s = join ";" (List.map show_die pre) in
   let ents = Array.of_list (List.filter_map (function E (d, dep, s, sub) -> Some (d, dep, s, sub) | Nl _ -> None) evs) in
@@ -846,6 +843,29 @@ let () =
              (enc_abbrevs (decls @ (match decls with d :: _ -> [d] | [] -> []))))
       end;
       match !result with Some x -> x | None -> failwith "c02.nav: no case"));
+
+  register "c02.rawnew"
+    ~doc:"EntriesRaw::new(input, encoding, abbreviations, offset) with arbitrary start offsets (documented: `offset` may be any value): offsets near 2^64 make `offset + input.len()` overflow — a panic under overflow checks, wrapping otherwise; entries then read with read_entry"
+    (fun ~seed ~n emit ->
+      let r = mk_rng seed in
+      for i = 1 to n do
+        let u = gen_wellformed r ~size:0 in
+        let nb = List.length u.body in
+        let off = match i mod 6 with
+          | 0 -> z_of_n (header_len u.hdr) | 1 -> Z.zero | 2 -> u64max
+          | 3 -> Z.sub two64 (Z.of_int nb) | 4 -> Z.sub u64max (Z.of_int nb) | _ -> boundary_z64 r in
+        let tblbytes = u.abbrev in
+        let aoff = u.hdr.uh_abbrev_off in
+        both emit (spf "c02.rawnew %d %s %s %s %s %s %s %s" (b01 u.bigend) (sn u.enc.version) (string_of_int (b01 u.enc.fmt64))
+                     (sn u.enc.address_size) (Z.to_string off) (hex_of_bytes u.body) (hex_of_bytes tblbytes) (sn aoff))
+          (fun dbg ->
+            try
+              let tbl = must (AbbrevRd.abbreviations_at dbg tblbytes aoff) in
+              let raw = must (DieRd.raw_new dbg u.body (n_of_z off)) in
+              let (l, err) = must (DieRd.raw_loop (S (nat_of_int nb)) dbg u.enc tbl raw) in
+              "ok " ^ with_err ";" (List.map show_die l) err
+            with Stop s -> s)
+      done);
 
   register "c02.corpus"
     ~doc:"every unit of the compiler-built corpus (gcc/clang, DWARF 2-5, 64-bit, split/dwo, type units): all navigation styles agree with the raw entry sequence (harness oracle); exhaustive over the corpus"
